@@ -21,7 +21,8 @@
 //!     (value-preserving integer conversion: identity)
 //!   * `for x in <list> { … break; … }`, one level, `<list>` through the name map: translated to a
 //!     structural recursion over the list carrying the `let mut` variables; what follows the
-//!     loop becomes `<fn>.after`, reached from `[]` and from `break`
+//!     loop becomes `<fn>.after`, reached from `[]` and from `break`; further loops in sequence
+//!     (inside `.after`) become `<fn>.loop2` / `.after2`, …; `return e;` inside a loop body ends the function
 //!   * the built-in `Option` / `Result`: patterns `Some(p)`, `None`, `Ok(p)`, `Err(p)` (nested, with tuples, `_`
 //!     and binders) in `match`; constructors `Some(e)`, `None`, `Ok(e)`, `Err(e)`; `Result<T, E>` ↦ `Except E T`
 //!   * `let x = …;` that shadows an immutable `let x` (not before a loop); `#[cfg(unix)]` on a `let`
@@ -566,6 +567,51 @@ const SPECS: &[Spec] = &[
         wrapper: None,
         note: "the event `SignerRequestMade(Nonce::new())` (fresh random nonce) is the parameter `made`.",
     },
+    Spec {
+        id: "C10",
+        file: "src/server/pubd/rrdp.rs",
+        ty: "CurrentObjects",
+        method: "verify_delta_applies",
+        lean: "CurrentObjects.verify_delta_applies",
+        sig: "&self,delta:&DeltaElements,jail:&uri::Rsync->Result<(),PublicationDeltaError>",
+        binders: "{E ε : Type} (in_jail present matches_hash : E → Bool) (err_outside err_present err_no_match : E → ε) \
+                  (publishes updates withdraws : List E)",
+        args: "in_jail present matches_hash err_outside err_present err_no_match publishes updates withdraws",
+        ret: "Except ε Unit",
+        num: Num::Nat,
+        names: &[
+            ("delta.publishes()", "publishes"),
+            ("delta.updates()", "updates"),
+            ("delta.withdraws()", "withdraws"),
+            ("jail.is_parent_of(&p.uri)", "(in_jail p)"),
+            ("jail.is_parent_of(&u.uri)", "(in_jail u)"),
+            ("jail.is_parent_of(&w.uri)", "(in_jail w)"),
+            ("self.0.contains_key(&CurrentObjectUri::from(&p.uri))", "(present p)"),
+            ("self.contains(u.hash,&u.uri)", "(matches_hash u)"),
+            ("self.contains(w.hash,&w.uri)", "(matches_hash w)"),
+            ("PublicationDeltaError::outside(jail,&p.uri)", "(err_outside p)"),
+            ("PublicationDeltaError::outside(jail,&u.uri)", "(err_outside u)"),
+            ("PublicationDeltaError::outside(jail,&w.uri)", "(err_outside w)"),
+            ("PublicationDeltaError::present(&p.uri)", "(err_present p)"),
+            ("PublicationDeltaError::no_match(&u.uri)", "(err_no_match u)"),
+            ("PublicationDeltaError::no_match(&w.uri)", "(err_no_match w)"),
+            ("Ok(())", "(Except.ok ())"),
+        ],
+        methods: &[],
+        state_ty: &[],
+        elem_ty: "E",
+        enums: &[],
+        structs: &[],
+        types: &[],
+        opaque_lets: &[],
+        effects: &[],
+        wrapper: None,
+        note: "delta elements `E` are abstract (one type for the three lists; the theorem instantiates it with the model's \
+               `Elem`): `jail.is_parent_of(&x.uri)` is `in_jail x`, `self.0.contains_key(&CurrentObjectUri::from(&x.uri))` \
+               is `present x`, `self.contains(x.hash, &x.uri)` (`CurrentObjects::contains`: the object under the canonical \
+               key of the URI has that hash) is `matches_hash x`; the three error constructors are parameters; the \
+               three lists are `DeltaElements::publishes/updates/withdraws` in protocol order.",
+    },
 ];
 
 type R = Result<String, String>;
@@ -601,6 +647,12 @@ struct Tr<'a> {
     state: Vec<String>,
     in_loop: bool,
     seen_loop: bool,
+    /// number of `for` loops translated so far; suffix of the current loop's `.loop`/`.after` ("" for the first,
+    /// "2", "3", … for loops that follow in sequence)
+    loop_count: usize,
+    suffix: String,
+    /// an immutable `let` was seen after a loop (it would not be in scope of a later loop's definitions)
+    let_after_loop: bool,
     /// auxiliary definitions (`.after`, `.loop`)
     aux: Vec<String>,
 }
@@ -963,7 +1015,7 @@ impl<'a> Tr<'a> {
     // ------------------------------------------------------------ statements
 
     fn loop_continue(&self) -> String {
-        let mut s = format!("{}.loop {}", self.spec.lean, self.spec.args);
+        let mut s = format!("{}.loop{} {}", self.spec.lean, self.suffix, self.spec.args);
         for v in &self.state {
             s.push(' ');
             s.push_str(&lean_ident(v));
@@ -973,7 +1025,7 @@ impl<'a> Tr<'a> {
     }
 
     fn after_call(&self) -> String {
-        let mut s = format!("{}.after {}", self.spec.lean, self.spec.args);
+        let mut s = format!("{}.after{} {}", self.spec.lean, self.suffix, self.spec.args);
         for v in &self.state {
             s.push(' ');
             s.push_str(&lean_ident(v));
@@ -1074,6 +1126,9 @@ impl<'a> Tr<'a> {
                     }
                 };
                 let line = format!("let {} := {v}", lean_ident(&name));
+                if self.seen_loop && !self.in_loop {
+                    self.let_after_loop = true;
+                }
                 if !mutable && !self.seen_loop {
                     // must not depend on a mutable local (it is re-emitted inside the loop)
                     for (m, is_mut) in &self.locals {
@@ -1314,8 +1369,11 @@ impl<'a> Tr<'a> {
     }
 
     fn for_loop(&mut self, f: &syn::ExprForLoop, rest: &[Item], ctl: Ctl, ind: usize) -> R {
-        if ctl != Ctl::Fn || self.seen_loop || f.label.is_some() {
+        if ctl != Ctl::Fn || self.in_loop || f.label.is_some() {
             return Err("`for` loop that is nested, labelled or inside a value block".into());
+        }
+        if self.let_after_loop {
+            return Err("`let` between two loops (it would not be in scope of the second loop's definition)".into());
         }
         let var = match &*f.pat {
             syn::Pat::Ident(i) if i.by_ref.is_none() && i.mutability.is_none() && i.subpat.is_none() => i.ident.to_string(),
@@ -1334,7 +1392,11 @@ impl<'a> Tr<'a> {
             return Err(e.clone());
         }
         self.seen_loop = true;
-        self.state = self.locals.iter().filter(|(_, m)| *m).map(|(n, _)| n.clone()).collect();
+        self.loop_count += 1;
+        let my_suffix = if self.loop_count == 1 { String::new() } else { self.loop_count.to_string() };
+        let my_state: Vec<String> = self.locals.iter().filter(|(_, m)| *m).map(|(n, _)| n.clone()).collect();
+        self.state = my_state.clone();
+        self.suffix = my_suffix.clone();
         let mut state_binders = String::new();
         for v in &self.state {
             let ty = self
@@ -1351,11 +1413,14 @@ impl<'a> Tr<'a> {
         let nl = self.locals.len();
 
         // what follows the loop
+        // (may contain further loops in sequence: they get their own suffix and state, restored below)
         let after_body = self.seq(rest, Ctl::Fn, 2)?;
+        self.state = my_state;
+        self.suffix = my_suffix;
         self.locals.truncate(nl);
         self.aux.push(format!(
-            "/-- what follows the loop of `{}::{}` (reached when the list is exhausted and from `break`) -/\ndef {}.after {}{} : {} :=\n{prefix}{after_body}\n",
-            self.spec.ty, self.spec.method, self.spec.lean, self.spec.binders, state_binders, self.spec.ret
+            "/-- what follows the loop of `{}::{}` (reached when the list is exhausted and from `break`) -/\ndef {}.after{} {}{} : {} :=\n{prefix}{after_body}\n",
+            self.spec.ty, self.spec.method, self.spec.lean, self.suffix, self.spec.binders, state_binders, self.spec.ret
         ));
 
         // the loop
@@ -1365,12 +1430,13 @@ impl<'a> Tr<'a> {
         self.locals.truncate(nl);
         self.in_loop = false;
         self.aux.push(format!(
-            "/-- the `for {var} in {}` loop of `{}::{}`: structural recursion over the list, carrying{} -/\ndef {}.loop {}{} (list : List {}) : {} :=\n  match list with\n  | [] => {}\n  | {} :: tail =>\n{prefix4}{body}\n",
+            "/-- the `for {var} in {}` loop of `{}::{}`: structural recursion over the list, carrying{} -/\ndef {}.loop{} {}{} (list : List {}) : {} :=\n  match list with\n  | [] => {}\n  | {} :: tail =>\n{prefix4}{body}\n",
             compact(&f.expr),
             self.spec.ty,
             self.spec.method,
             if self.state.is_empty() { " nothing".to_string() } else { format!(" `{}`", self.state.join("`, `")) },
             self.spec.lean,
+            self.suffix,
             self.spec.binders,
             state_binders,
             self.spec.elem_ty,
@@ -1378,7 +1444,7 @@ impl<'a> Tr<'a> {
             self.after_call(),
             lean_ident(&var),
         ));
-        let mut call = format!("{}{}.loop {}", pad(ind), self.spec.lean, self.spec.args);
+        let mut call = format!("{}{}.loop{} {}", pad(ind), self.spec.lean, self.suffix, self.spec.args);
         for v in &self.state {
             call.push(' ');
             call.push_str(&lean_ident(v));
@@ -1496,6 +1562,9 @@ fn gen_fn(repo: &Path, spec: &Spec) -> R {
         state: Vec::new(),
         in_loop: false,
         seen_loop: false,
+        loop_count: 0,
+        suffix: String::new(),
+        let_after_loop: false,
         aux: Vec::new(),
     };
     let block: &syn::Block = match spec.wrapper {
